@@ -625,7 +625,7 @@ func c18RunImm(m *vk.M, idx int, sc c18ImmScn) bool {
 		case succeeded && (err != nil || v != got):
 			m.Violate("C18:immutableresource:value-changed", desc, "step %d: Get returned (%v,%v) after the resource had been fetched as %v", i, v, err, got)
 			return true
-		case !succeeded && fetched == 1 && lastFetch >= 0 && now <= lastFetch+sc.Interval:
+		case !succeeded && fetched == 1 && lastFetch >= 0 && now < lastFetch+sc.Interval: // a retry exactly at the interval is left open
 			m.Violate("C18:immutableresource:refetch-before-interval", desc, "step %d: fetch retried %dms after the failed fetch, refresh interval %dms (virtual clock)", i, now-lastFetch, sc.Interval)
 			return true
 		}
